@@ -238,6 +238,22 @@ CHECKS = {
               "without an exact rational construction are decided by numerical observation predicates only"),
         technique="TLA+ exact pencil construction checked by TLC; comparison of EigenSolve with exact eigenpairs; numeric observations",
         design="9/C11"),
+    "C19": dict(
+        text=("FiniteDiff.tla transcribes finite_difference step by step (selection of the sub-network between the first module "
+              "using an input of interest and the last producing an output of interest, one response of the preceding modules, "
+              "reset, response, per output seed / sensitivity / store / reset, per input entry perturb / response / report / "
+              "restore with the imaginary-direction pass for complex data, keep_zero_structure, relative_dx) over networks of "
+              "modules with exactly known Jacobians on the Gaussian rationals (multi-affine, quadratic, holomorphic complex, "
+              "real-valued non-holomorphic, scalar signals, sparse-matrix output, two-output modules, a deliberately wrong "
+              "adjoint); TLC checks Restored, NoSensLeft, Visited (every entry once per output, twice for complex entries, "
+              "zeros skipped) and Verdict (right adjoints are reported with exactly matching pairs on affine networks, wrong "
+              "ones are not). Every case is run through pymoto.finite_difference with a recording test_fn: the complete "
+              "callback sequence (analytical and numerical values, dx) and the final states and sensitivities are compared "
+              "with TLC's exact rationals."),
+        note=(TLC_BASE + "; fromsig / tosig are given explicitly; perturbing a sparse-matrix input is outside the admissible "
+              "inputs; dyadic dx and integer data make difference quotients exact"),
+        technique="TLA+ transcription of the finite-difference procedure checked by TLC; replay with a recording callback",
+        design="9/C19"),
 }
 
 
